@@ -130,3 +130,7 @@ Definition c08_line (c : cfg) (o : sobj) (sels : list ustring) : string :=
 
 Definition c08_lines (c : cfg) (o : sobj) (sels : list (list ustring)) : string :=
   join " " (map (c08_line c o) sels).
+
+(* the \d table, for the comparison with the implementation's regex *)
+Definition show_nd_ranges : string :=
+  join "," (map (fun r => show_N (fst r) ++ "-" ++ show_N (snd r)) nd_ranges).
